@@ -101,6 +101,24 @@ def run(ctx, rep) -> None:
     ok = bool(pushed) and rmsg and all(norm(rmsg[0].targets[0]) in norm(c) for c in pushed)
     rep.check(bool(ok), "C14.R2", "the incremented message is the one that is pushed", f"{len(pushed)} execute_atomic call(s) push the retry message", tr.file, tn.lineno, disc="pushed")
 
+    # ---- R4b: which exception the saved progress is taken from ------------------------------------------------------
+    # The executor wraps a task's exception (BulkheadError -> TransientError [-> the user's own cause]). The progress travels
+    # on the TransientError: it must be looked up on the exception handed in first and then on its causes NEAREST FIRST.
+    from ..chain import resolve as _resolve_chain
+    ht = prog.func("stabilize.handlers.run_task.error", "RunTaskErrorMixin._handle_transient_retry") if "RunTaskErrorMixin" in prog.module("stabilize.handlers.run_task.error").classes else None
+    if ht is None:
+        cands_ = [f_ for f_ in prog.all_functions() if f_.module.name == "stabilize.handlers.run_task.error" and f_.qualname.endswith("_handle_transient_retry")]
+        ht = cands_[0] if cands_ else None
+    if ht is None:
+        raise AnalysisError("_handle_transient_retry not found")
+    ch = _resolve_chain(prog, ht, "context_update")
+    srcs = [s_.replace('"', "'") for _, s_ in ch]
+    okc = len(ch) >= 1 and srcs[0] == "getattr(exception, 'context_update', None)" and all(c_ == "none" for c_, _ in ch[1:]) \
+        and all(x == "getattr(exception" + ".__cause__" * i_ + ", 'context_update', None)" for i_, x in enumerate(srcs))
+    rep.check(okc, "C14.R4", "saved progress is read from the failing exception, then from its causes nearest first", f"lookup order {srcs}" if okc else
+              f"context_update resolves as {ch}: the progress attached to a TransientError is looked up on another exception of the chain first (e.g. the root cause), so `raise TransientError(..., context_update=...) from exc` "
+              "loses it - the next attempt starts without the saved progress and a task that can only finish incrementally burns its whole budget", ht.file, ht.node.lineno, disc="progress-source")
+
     # ---- R3 round trip -------------------------------------------------------------------------------
     ser = prog.module("stabilize.queue.sqlite.serialization")
     des = ser.functions["deserialize_message"].node
@@ -144,6 +162,16 @@ def run(ctx, rep) -> None:
     rep.check(ok, "C14.R3", f"budget field `{field}` survives the queue", detail, he.file, bdef[0].lineno, disc=f"roundtrip:{field}")
     for qual, g, f in generic:
         rep.check(g, "C14.R3", f"{qual} serialises every public field", "for key, value in message.__dict__.items(): skip only `_`-prefixed keys", f.file, f.node.lineno, disc=f"generic:{qual}")
+    # the row's delivery counter starts at 0 in EVERY insert into the queue table (sibling agreement): if one push path seeds
+    # it from the message, the retry budget and the delivery counter add up and the row is dead-lettered / refused early
+    from .. import sqlshape as _sq
+    qins = [s_ for s_ in _sq.statements(prog) if s_.kind == "INSERT" and "attempts" in s_.cols and ("queue" in s_.table or "table_name" in s_.table) and "dlq" not in s_.table.lower() and (rep.tier == "thorough" or _sq.is_sqlite(s_))]
+    rep.floor("INSERTs into the queue table", len(qins), 3)
+    for s_ in qins:
+        v_ = s_.vals[s_.cols.index("attempts")].strip()
+        rep.check(v_ == "0", "C14.R3", f"{s_.func.qualname}: a new queue row starts with attempts = 0", "literal 0" if v_ == "0" else
+                  f"attempts is written from `{v_}` ({s_.params.get(v_.lstrip(':%(').rstrip(')s'), '?')}): poll's `attempts < max_attempts` and the DLQ sweep then count the retry budget on top of the deliveries - "
+                  "with a small queue limit the k-th retry is born exhausted and the task stays RUNNING forever", s_.file, s_.line, disc=f"attempts-zero:{s_.func.qualname}")
     rep.check(discards <= {"message_id", "created_at", "attempts", "max_attempts", "last_error", "last_error_type"}, "C14.R3", "deserialize_message discards only base-Message metadata", f"discards: {sorted(discards)}", "src/stabilize/queue/sqlite/serialization.py", des.lineno, disc="discards")
 
     # ---- R4 --------------------------------------------------------------------------------------
